@@ -2,7 +2,8 @@ import MgpuModel.Util
 import MgpuModel.C20_Sys
 import MgpuModel.C20_Parse
 import MgpuModel.C20_Header
-/-! # C20 — line-protocol front end (`c20 run …`, `c20 parse …`, `c20 inst …`, `c20 hdr …`, `c20 klist …`, `c20 bench …`) -/
+import MgpuModel.C20_Engine
+/-! # C20 — line-protocol front end (`c20 run …`, `c20 eng …`, `c20 parse …`, `c20 inst …`, `c20 hdr …`, `c20 klist …`, `c20 bench …`) -/
 namespace C20
 open Util
 
@@ -189,8 +190,33 @@ def handleHeader (line : String) : Option String :=
 
 def legacyAddrOf (line : String) : Bool := line.startsWith "c20 legacy"
 
+/-- `G0+S1+y0` = handled event `+` the events scheduled while it was handled -/
+def parseEStep (t : String) : Option EStep :=
+  match (t.splitOn "+").mapM parseEv with
+  | some (e :: new) => some (e, new)
+  | _ => none
+
+/-- `c20 eng <cfg> ; <initial queue> ; <steps>`: replay a recorded run of the real engine as a run of
+    the abstract engine (`EngRun`) and judge it -/
+def engCase (cfg : List String) (q0 : List String) (steps : List String) : String :=
+  match kvNat? cfg "g", kvNat? cfg "s", kvNat? cfg "c", kv? cfg "k" with
+  | some g, some sS, some c, some k =>
+    let trace := parseTrace k
+    let a := engReplay (init false g sS c trace) (q0.filterMap parseEv) (steps.filterMap parseEStep)
+    let bad := match a.bad with
+      | none => "-"
+      | some (i, r) => s!"{i}{r}"
+    s!"ev={a.n} valid={if a.bad.isNone then 1 else 0} firstbad={bad} spurious={a.spurious} missed={a.missed} " ++
+    s!"qend={a.q.length} bound={engBound g sS c trace} finished={if finished a.s then 1 else 0} fl={a.fl}"
+  | _, _, _, _ => "bad"
+
 def handle (line : String) : String :=
-  if line.startsWith "c20 run" then
+  if line.startsWith "c20 eng" then
+    match splitTrim line ";" with
+    | [cfg, q0] => engCase (words cfg) (words q0) []
+    | [cfg, q0, steps] => engCase (words cfg) (words q0) (words steps)
+    | _ => "bad"
+  else if line.startsWith "c20 run" then
     match splitTrim line ";" with
     | [cfg] => runCase (words cfg) []
     | [cfg, sched] => runCase (words cfg) (words sched)
